@@ -4,6 +4,8 @@ from .history import *  # noqa
 from . import history as _h
 from ..core import Outcome
 
+TIERS = {'quick': {'runs': 14000, 'wall': 75, 'min_budget': 40}, 'thorough': {'runs': 2000000, 'wall': 900, 'min_budget': 150}}
+
 PROPERTY = 'C07'
 RULE = ('same histories as C04 but with 25-45% adversarial rule calls (mismatching antecedent up to notation, non-implication premise, generalised '
         'variable free in the consequent directly / under notation / in a pending substitution / via an unconstrained metavariable, '
